@@ -124,7 +124,8 @@ class BilinearForm(Form):
             np.array([rows, cols]),
             data,
             (vbasis.N, ubasis.N),
-            (vbasis.Nbfun, ubasis.Nbfun),
+            # layout of data: (trial, test, cell)
+            (ubasis.Nbfun, vbasis.Nbfun),
         )
 
     def assemble(self, *args, **kwargs):
